@@ -8,7 +8,7 @@ side). A public callable without an entry is reported as uncovered in the eviden
 import importlib
 
 # heap categories -> what lives there (shapes depend on the plan-level sizes N (image side), M (vector length), K (stack depth))
-CATS = ("img2d", "img3d", "cplx2d", "cplx3d", "vec_inc", "vec_pos", "mask2d", "pos", "sep", "slopes3", "frames", "cov32", "r32")
+CATS = ("img2d", "img3d", "img4d", "cplx2d", "cplx3d", "vec_inc", "vec_pos", "mask2d", "pos", "sep", "slopes3", "frames", "cov32", "r32")
 
 ENTRIES = []
 BY_NAME = {}
@@ -43,17 +43,17 @@ E("aotools.astronomy._astronomy.photons_per_mag", [("mask", ["mask2d", "img2d"])
 
 # ---- fourier transforms (leading axes are batch axes) -------------------------------------------------------------
 for _n in ("ft", "ift", "rft"):
-    E("aotools.fouriertransform." + _n, [("data", ["vec_pos", "img2d", "cplx2d", "vec_inc"])], lambda r, z: {"d": r.choice([1.0, 0.1, 0.37])},
+    E("aotools.fouriertransform." + _n, [("data", ["vec_pos", "img2d", "cplx2d", "vec_inc", "img3d"])], lambda r, z: {"d": r.choice([1.0, 0.1, 0.37])},
       lambda f, A, S: f(A["data"], S["d"]),
-      batch={"param": "data", "cat": "img2d", "item": lambda res, k: res[k]})
+      batch={"param": "data", "cat": ["img2d", "img3d", "cplx2d"], "item": lambda res, k: res[k]})
 E("aotools.fouriertransform.irft", [("data", ["vec_pos", "cplx2d", "img2d"])], lambda r, z: {"d": r.choice([1.0, 0.1])},
   lambda f, A, S: f(A["data"], S["d"]), batch={"param": "data", "cat": "img2d", "item": lambda res, k: res[k]})
 for _n in ("ft2", "ift2", "rft2"):
-    E("aotools.fouriertransform." + _n, [("data", ["img2d", "cplx2d", "img3d", "mask2d", "cplx3d"])], lambda r, z: {"d": r.choice([1.0, 0.1, 0.37])},
+    E("aotools.fouriertransform." + _n, [("data", ["img2d", "cplx2d", "img3d", "mask2d", "cplx3d", "img4d"])], lambda r, z: {"d": r.choice([1.0, 0.1, 0.37])},
       lambda f, A, S: f(A["data"], S["d"]),
-      batch={"param": "data", "cat": "img3d", "item": lambda res, k: res[k]})
-E("aotools.fouriertransform.irft2", [("data", ["cplx2d", "img2d", "img3d"])], lambda r, z: {"d": r.choice([1.0, 0.1])},
-  lambda f, A, S: f(A["data"], S["d"]), batch={"param": "data", "cat": "img3d", "item": lambda res, k: res[k]})
+      batch={"param": "data", "cat": ["img3d", "img4d", "cplx3d"], "item": lambda res, k: res[k]})
+E("aotools.fouriertransform.irft2", [("data", ["cplx2d", "img2d", "img3d", "img4d", "cplx3d"])], lambda r, z: {"d": r.choice([1.0, 0.1])},
+  lambda f, A, S: f(A["data"], S["d"]), batch={"param": "data", "cat": ["img3d", "img4d", "cplx3d"], "item": lambda res, k: res[k]})
 
 # ---- functions ------------------------------------------------------------------------------------------------------
 E("aotools.functions._functions.gaussian2d", [], lambda r, z: {"size": r.choice([8, [6, 9]]), "width": r.choice([2.0, [1.5, 3.0]]),
@@ -103,8 +103,8 @@ E("aotools.image_processing.centroiders.centre_of_gravity", [("img", ["img2d", "
 E("aotools.image_processing.centroiders.brightest_pixel", [("img", ["img2d", "img3d"])], lambda r, z: {"threshold": r.choice([0.1, 0.3, 0.5])},
   lambda f, A, S: f(A["img"], S["threshold"]),
   batch={"param": "img", "cat": "img3d", "item": lambda res, k: res[:, k]})
-E("aotools.image_processing.centroiders.quadCell", [("img", ["img2d", "img3d", "cplx2d", "cplx3d"])], None, lambda f, A, S: f(A["img"][..., :2, :2]),
-  batch={"param": "img", "cat": "img3d", "item": lambda res, k: res[:, k]})
+E("aotools.image_processing.centroiders.quadCell", [("img", ["img2d", "img3d", "cplx2d", "cplx3d", "img4d"])], None, lambda f, A, S: f(A["img"][..., :2, :2]),
+  batch={"param": "img", "cat": ["img3d", "img4d", "cplx3d"], "item": lambda res, k: res[:, k]})
 E("aotools.image_processing.centroiders.correlation_centroid", [("im", ["img3d", "img2d", "cplx3d", "cplx2d"]), ("ref", ["img2d", "cplx2d"])],
   lambda r, z: {"threshold": r.choice([0.0, 0.0, 0.3]), "padding": r.choice([1, 2])},
   lambda f, A, S: f(A["im"], A["ref"], S["threshold"], S["padding"]),
@@ -119,8 +119,8 @@ E("aotools.image_processing.psf.encircled_energy", [("data", ["img2d", "mask2d"]
   lambda f, A, S: f(A["data"], S["fraction"], S["center"], S["d"]))
 
 # ---- interpolation ------------------------------------------------------------------------------------------------------
-E("aotools.interpolation.binImgs", [("data", ["img2d", "img3d", "mask2d", "cplx2d", "cplx3d"])], lambda r, z: {"n": 2}, lambda f, A, S: f(A["data"], S["n"]),
-  batch={"param": "data", "cat": "img3d", "item": lambda res, k: res[k]})
+E("aotools.interpolation.binImgs", [("data", ["img2d", "img3d", "mask2d", "cplx2d", "cplx3d", "img4d"])], lambda r, z: {"n": 2}, lambda f, A, S: f(A["data"], S["n"]),
+  batch={"param": "data", "cat": ["img3d", "img4d", "cplx3d"], "item": lambda res, k: res[k]})
 E("aotools.interpolation.zoom", [("array", ["img2d", "cplx2d"])], lambda r, z: {"size": r.choice([12, [10, 14]]), "order": r.choice([1, 3])},
   lambda f, A, S: f(A["array"], S["size"], S["order"]), note="raises on this image (scipy.interpolate.interp2d is gone)")
 E("aotools.interpolation.zoom_rbs", [("array", ["img2d", "cplx2d"])], lambda r, z: {"size": r.choice([[12, 12], [10, 14], 12]), "order": r.choice([1, 3])},
@@ -229,8 +229,8 @@ E("aotools.turbulence.slopecovariance.CovarianceMatrix",
   lambda r, z: {"threads": r.choice([1, 1, 2, 3]), "cond": r.choice([0, 1e-3])}, _covmat, weight=5.0)
 
 # ---- turbulence: temporal power spectra ---------------------------------------------------------------------------------------
-E("aotools.turbulence.temporal_ps.calc_slope_temporalps", [("s", ["img2d", "img3d", "cplx2d"])], None, lambda f, A, S: f(A["s"]),
-  batch={"param": "s", "cat": "img3d", "item": lambda res, k: [res[0][k], res[1][k]]})
+E("aotools.turbulence.temporal_ps.calc_slope_temporalps", [("s", ["img2d", "img3d", "cplx2d", "img4d"])], None, lambda f, A, S: f(A["s"]),
+  batch={"param": "s", "cat": ["img3d", "img4d"], "item": lambda res, k: [res[0][k], res[1][k]]})
 E("aotools.turbulence.temporal_ps.get_tps_time_axis", [], lambda r, z: {"rate": r.choice([100.0, 500.0]), "n": r.choice([16, 33])},
   lambda f, A, S: f(S["rate"], S["n"]))
 
